@@ -314,8 +314,119 @@ def run_behavior_class(ctx: Ctx, res: Result, pipeline: S.Sym, roles: dict[str, 
     return ok
 
 
+# --------------------------------------------------------------------------- R2: subject or object first
+
+
+MODULE_SPECIFIERS = ("are_named", "are_sub_modules_of", "have_name_matching", "have_name_containing")
+
+
+def run_side_guard(ctx: Ctx, res: Result, roles: dict[str, str] | None) -> None:
+    """A module list given before `modules_that()` / an import type selected a side must be rejected."""
+    if roles is None:
+        return
+    rule = ctx.public_class("Rule")
+    want = atom(f"{roles['side']} is None")
+    for name in MODULE_SPECIFIERS:
+        m = ctx.repo.lookup_method(rule, name)
+        if m is None or m.is_abstract:
+            continue
+        sym = ctx.run(m)
+        hits = [o for o in bad_outcomes(sym) if consistent(o, want)]
+        ok = not hits
+        res.add(
+            "C13.R2",
+            f"{m.relpath}::Rule.{name}::subject or object first",
+            ok,
+            f"{name}() raises while neither a rule subject nor a rule object has been announced" if ok else f"{name}() can complete ({describe_outcome(hits[0])}) although no rule subject or object was announced (`{show(want)}`): an object given before a subject is accepted",
+            where_o(hits[0]) if hits else where(m, m.node),
+            kind="dominance",
+        )
+
+
+# --------------------------------------------------------------------------- R2 / R6: LayerRule
+
+
+def _ref_of_class(v: S.Val, fq: str) -> bool:
+    if isinstance(v, Ref):
+        return v.cls == fq
+    if isinstance(v, Phi):
+        return any(_ref_of_class(a, fq) for _c, a in v.alts)
+    return False
+
+
+def run_layer_rule(ctx: Ctx, res: Result) -> None:
+    repo = ctx.repo
+    lr = ctx.public_class("LayerRule")
+    rule = ctx.public_class("Rule")
+    based_on = ctx.method(lr, "based_on")
+    layers_that = ctx.method(lr, "layers_that")
+    # roles: the attribute that receives the architecture, the attribute that receives the freshly created module rule
+    arch_keys = [k for k, v in final_writes(ctx.run(based_on)).items() if isinstance(v, Opq) and v.kind == "param"]
+    rule_keys = [k for k, v in final_writes(ctx.run(layers_that)).items() if _ref_of_class(v, rule.fq)]
+    if len(arch_keys) != 1 or len(rule_keys) != 1:
+        res.undecide("C13.R2", f"{lr.module.relpath}::LayerRule::state roles", f"cannot tell where based_on() stores the architecture ({arch_keys}) / layers_that() the module rule ({rule_keys})", lr.module.relpath)
+        return
+    k_arch, k_rule = arch_keys[0], rule_keys[0]
+    no_rule, no_arch = atom(f"{k_rule} is None"), atom(f"{k_arch} is None")
+    n = 0
+    for name, m in sorted(lr.methods.items()):
+        if name.startswith("_") or m.is_property or m.is_abstract:
+            continue
+        if m is based_on:
+            want, label = f_not(no_arch), "a second based_on()"
+        elif m is layers_that:
+            want, label = no_arch, "layers_that() before based_on()"
+        else:
+            want, label = no_rule, f"{name}() before layers_that()"
+        sym = ctx.run(m)
+        hits = [o for o in bad_outcomes(sym) if consistent(o, want)]
+        n += 1
+        ok = not hits
+        res.add(
+            "C13.R2",
+            f"{m.relpath}::LayerRule.{name}::ordering guard",
+            ok,
+            f"{label} raises a configuration error" if ok else f"{label} is not rejected: with `{show(want)}` {describe_outcome(hits[0])} is reached - the incomplete call chain continues (or fails with an unspecific error) instead of raising a configuration error",
+            where_o(hits[0]) if hits else where(m, m.node),
+            kind="dominance",
+        )
+    res.floor("C13.R2.layer", 4, n)
+    # R6: every requested layer name indexes the architecture with a raising subscript
+    an = ctx.method(lr, "are_named")
+    p = an.param_names[1]
+    sym = ctx.run(an)
+    rets = [o for o in sym.outcomes if o.kind == "return"]
+    ok, detail = False, f"are_named() never uses a requested layer name as a raising subscript of the layer definition: a rule naming a layer that was never defined gets a verdict"
+    for ev in sym.events:
+        if ev.kind != "subscript" or not ev.args:
+            continue
+        idx = ev.args[0]
+        if not (isinstance(idx, Opq) and idx.kind in ("elem", "param") and idx.deps == frozenset({p})):
+            continue
+        if not any(m_[0] == "b" and m_[1] == "dict" for m_ in members(ev.recv_type)):
+            continue
+        if any(h in ("KeyError", "LookupError", "Exception", "BaseException", "<bare>") for h in ev.handlers):
+            detail = f"the KeyError of `{norm(ev.node, 50)}` for an undefined layer is caught"
+            continue
+        if idx.kind == "param":
+            good = all(implies(o.cond, ev.cond) for o in rets)
+        else:
+            loops = [lc for lc in ev.loops if lc.elem is not None and lc.elem.key == idx.key.split("[")[0] or (lc.elem is not None and idx.key.startswith(lc.elem.key))]
+            good = bool(loops) and loops[0].elem.meta and loops[0].elem.meta[0] == p and all(implies(o.cond, S.conj(loops[0].pre_path)) for o in rets) and implies(f_and([S.conj(loops[0].pre_path), loops[0].iter_atom]), ev.cond)
+        if good:
+            ok, detail = True, f"each requested layer name is looked up with `{norm(ev.node, 50)}` (KeyError for an undefined layer) on every path"
+            break
+        detail = f"`{norm(ev.node, 50)}` is not evaluated for every requested layer on every path: a rule naming a layer that was never defined can get a verdict"
+    if not rets:
+        res.undecide("C13.R6", repo.key(an, "layer lookup"), "LayerRule.are_named never returns normally in the symbolic run", where(an, an.node))
+    else:
+        res.add("C13.R6", f"{an.relpath}::LayerRule.are_named::every requested layer is looked up", ok, detail, where(an, an.node), kind="dominance")
+
+
 def run(repo: Repo) -> Result:
     res = Result("C13")
     ctx = Ctx(repo)
-    run_rule_pipeline(ctx, res)
+    roles = rule_roles(ctx, res)
+    run_side_guard(ctx, res, roles)
+    run_layer_rule(ctx, res)
     return res
